@@ -2,6 +2,7 @@
    iterators are Z offsets from begin(), the vector is a list. *)
 From Coq Require Import ZArith Arith Lia List Bool.
 From Amc Require Import Hint.
+From Amc Require SetModel.
 Import ListNotations.
 Local Open Scope Z_scope.
 (* primitives the generated program is expressed in *)
@@ -12,3 +13,23 @@ Definition lower_bound (cmp : Z -> Z -> bool) (l : list Z) (lo hi : Z) (v : Z) :
 Definition set_insert (cmp : Z -> Z -> bool) (l : list Z) (v : Z) : list Z * Z :=
   let (l', i) := insert_val cmp l v in (l', Z.of_nat i).
 Definition vec_erase (l : list Z) (i : Z) : list Z := firstn (Z.to_nat i) l ++ skipn (S (Z.to_nat i)) l.
+Definition vlen (l : list Z) : Z := Z.of_nat (length l).
+(* _sortedVector.insert(end(), first, last): returns the position of the first inserted element *)
+Definition vec_append (l vs : list Z) : list Z * Z := (l ++ vs, Z.of_nat (length l)).
+Definition sub (l : list Z) (a b : Z) : list Z := firstn (Z.to_nat (b - a)) (skipn (Z.to_nat a) l).
+(* std::stable_sort(begin()+a, begin()+b, comp), std::inplace_merge(begin()+a, begin()+m, begin()+b, comp): by the algorithms
+   SetModel.ssort / smerge, which meet the standard's specification (stability; merge takes from the second range only when
+   strictly less) *)
+Definition stable_sort_range (cmp : Z -> Z -> bool) (l : list Z) (a b : Z) : list Z :=
+  firstn (Z.to_nat a) l ++ SetModel.ssort cmp (sub l a b) ++ skipn (Z.to_nat b) l.
+Definition inplace_merge_range (cmp : Z -> Z -> bool) (l : list Z) (a m b : Z) : list Z :=
+  firstn (Z.to_nat a) l ++ SetModel.smerge cmp (sub l a m) (sub l m b) ++ skipn (Z.to_nat b) l.
+(* _sortedVector.erase(std::unique(begin(), end(), pred), end()): the first element of every run of pred-equal neighbours *)
+Fixpoint erase_unique (eq : Z -> Z -> bool) (l : list Z) : list Z :=
+  match l with
+  | [] => []
+  | x :: t => x :: match erase_unique eq t with
+                   | [] => []
+                   | y :: t' => if eq x y then t' else y :: t'
+                   end
+  end.
